@@ -200,21 +200,21 @@ impl Prop for C07 {
         "C07"
     }
     fn rule(&self) -> String {
-        "case = (degree 0..=7 uniform, coefficient vector with cancellation patterns / wide exponents, knot (x of any sign and magnitude incl. ±0, y any), evaluation points a,b, segment end). Oracle: indefinite(): constant 0, coefficient i+1 within one ulp of c_i/(i+1) (bit-exact for divisors 1,2,4,8); integral(knot): same non-constant coefficients bit for bit, exact value of the returned polynomial at knot.x within (4(m+2)+2)u(|y|+S_I(x)) of knot.y, and the same through evaluate; F(b)-F(a) (library evaluate, difference taken exactly) vs the 384-bit integral Σc_i(b^(i+1)-a^(i+1))/(i+1); integral(k).derivative() coefficient-wise within one ulp of p; Segment::{indefinite,integral} bit-identical to the piece-level call with end kept. Value clauses judged only when every term is within 2^±900 (else labelled). Non-trivial: degree>=1, >=2 non-zero coefficients, knot != (2,5).".into()
+        "case = (degree 0..=7 uniform, coefficient vector with cancellation patterns / wide exponents, all ordinates (coefficients and knot.y) times a common power of two 2^k, k=0 in 70% of cases else uniform in ±300, knot (x of any sign and magnitude incl. ±0, y any), evaluation points a,b, segment end). Oracle: indefinite(): constant 0, coefficient i+1 within one ulp of c_i/(i+1) (bit-exact for divisors 1,2,4,8); integral(knot): same non-constant coefficients bit for bit, exact value of the returned polynomial at knot.x within (4(m+2)+2)u(|y|+S_I(x)) of knot.y, and the same through evaluate; F(b)-F(a) (library evaluate, difference taken exactly) vs the 384-bit integral Σc_i(b^(i+1)-a^(i+1))/(i+1); integral(k).derivative() coefficient-wise within one ulp of p; Segment::{indefinite,integral} bit-identical to the piece-level call with end kept. Value clauses judged only when every term is within 2^±900 (else labelled). Non-trivial: degree>=1, >=2 non-zero coefficients, knot != (2,5).".into()
     }
     fn cases(&self, tier: Tier) -> u64 {
-        tier.pick(240_000, 8_000_000)
+        tier.pick(800_000, 12_000_000)
     }
     fn strategy(&self, _tier: Tier) -> BoxedStrategy<Case> {
         let pt = || prop_oneof![3 => gen::moderate(30), 1 => gen::scaled(-60, 60), 1 => Just(0.0), 1 => Just(-0.0)];
-        (0u8..8, any::<u8>(), pt(), gen::moderate(60), pt(), pt(), gen::any_non_nan())
-            .prop_flat_map(|(deg, wide, kx, ky, a, b, end)| {
+        (0u8..8, any::<u8>(), pt(), gen::moderate(60), pt(), pt(), gen::any_non_nan(), gen::common_scale(300))
+            .prop_flat_map(|(deg, wide, kx, ky, a, b, end, sc)| {
                 let emax = if wide % 4 == 0 { 150 } else { 30 };
                 (gen::coeffs(deg as usize + 1, emax)).prop_map(move |c| Case {
                     deg,
-                    c: c.into_iter().map(B).collect(),
+                    c: c.into_iter().map(|v| B(v * sc)).collect(),
                     kx: B(kx),
-                    ky: B(ky),
+                    ky: B(ky * sc),
                     a: B(a),
                     b: B(b),
                     end: B(end),
